@@ -17,6 +17,8 @@ import Paroxy.Proofs.HintsPrepare
 import Paroxy.Proofs.HintsAllTexts
 import Paroxy.Model.ParseGlue
 import Paroxy.Proofs.NodeSpan
+import Paroxy.Proofs.NodeSpanTree
+import Paroxy.Proofs.NodeCaptures
 import Paroxy.Proofs.FlatEntries
 import Paroxy.Props.C15
 namespace Paroxy.Props.C02
@@ -192,18 +194,95 @@ end Paroxy.Props.C02
 
 `dumpP h [] [] t` is the flat AST of a (tweaked) tree `t`; `nodeMatches` / `wholeSpanMatch?` are the hand
 matchers of the `node` / `whole_span` patterns (validated against the real engine by harness/c01.py and
-harness/c02_tree.py); `PreorderMonotone`: line numbers never decrease along the pre-order enumeration of
-the positioned nodes (checked on every real tree by harness/c02_tree.py; it fails for a decorated
-definition whose decorator is dumped after the body — repaired by d0d94f6 — and for nothing else seen). -/
+harness/c02_tree.py). Hypotheses (Bool-valued, evaluated on every real tree, status reported in the
+evidence; the span checks of the harness are made on every tree whatever their status):
+`lastDescMono` — the line of a positioned node is not after the line of its last positioned strict
+descendant in dump order (holds on all real trees seen); the former `PreorderMonotone` — line numbers never
+decrease along the whole pre-order enumeration — is stronger and fails on decorated definitions and
+classes and on multi-line conditional expressions (about a fifth of the generated trees). -/
 namespace Paroxy.Props.C02
 open Paroxy.Flat
 
-/-- **C02 (node spans).** On the dump of a well-formed tree (`treeOk2`), every match of the `node`
-feature whose type is a positioned type captures the position of a node of the tree — its own — and
-optionally a second one, the position of a node that comes **later in pre-order**; when line numbers
-are non-decreasing in pre-order (`PreorderMonotone`), its line is not smaller, so the span bound by
-`get_bindings` satisfies `start ≤ end`. -/
-theorem C02_node_span (t0 t : Val) (hwf : treeOk2 t = true) (hmono : PreorderMonotone (entries [] [] t)) :
+/-- **C02 (node spans).** On the dump of a well-formed tree (`treeOk2`, `namesOkTree`), every match of the
+`node` feature whose type is a positioned type captures the position of a node of the tree — its own —
+and optionally a second one: the position of its **last positioned strict descendant in dump order**.
+Hence, as soon as the line of every positioned node is not after the line of that descendant
+(`lastDescMono`: exactly what the pattern can capture — decorated definitions satisfy it although line
+numbers decrease from the `def` to its decorators), the span bound by `get_bindings` has `start ≤ end`. -/
+theorem C02_node_span (t0 t : Val) (hwf : treeOk2 t = true) (hnames : namesOkTree t = true)
+    (hmono : lastDescMono [] [] t = true) :
+    ∀ m ∈ nodeMatches (dumpP (hashFn t0) [] [] t), (posTypes t).contains m.1 = true →
+      GoodSpan m ∧ ∀ b, nodeBinding? m = some b → b.2.start ≤ b.2.stop := by
+  intro m hm hP
+  have hall : ∀ e ∈ entries [] [] t, e.ok2 = true ∧ e.typed (posTypes t).contains = true := by
+    intro e he
+    have := List.all_eq_true.mp hwf e he
+    simpa using this
+  obtain ⟨MS, hMS, hG⟩ := nm_tree (hashFn t0) (eq_not_mem_hashFn t0) (hashNoNewline_hashFn t0) _ t [] [] []
+    hall hnames hmono (by intro l hl; cases hl)
+  have hm' : m ∈ MS := by
+    have : nodeMatches (dumpP (hashFn t0) [] [] t) = MS := by
+      simpa [encNames, encPath, nodeMatches] using hMS
+    rw [this] at hm; exact hm
+  have hg := hG m hm' hP
+  exact ⟨hg, fun b hb => goodSpan_binding hg hb⟩
+
+/-- **C02 (captured positions).** On the dump of a well-formed tree, every position captured by a `node`
+match of a positioned type is the position text of a node of the tree that carries a line number — no
+hypothesis on the line numbers. -/
+theorem C02_node_captures (t0 t : Val) (hwf : treeOk2 t = true) :
+    ∀ m ∈ nodeMatches (dumpP (hashFn t0) [] [] t), (posTypes t).contains m.1 = true →
+      ∀ p ∈ m.2, ∃ ty n a, (ty, n) ∈ positionedNodes t ∧ p = posText n a := by
+  intro m hm hP
+  have hall : ∀ e ∈ entries [] [] t, e.ok2 = true ∧ e.typed (posTypes t).contains = true := by
+    intro e he
+    have := List.all_eq_true.mp hwf e he
+    simpa using this
+  have hd : dumpP (hashFn t0) [] [] t = (entries [] [] t).flatMap (Entry.lines (hashFn t0)) :=
+    dumpP_eq_entries (hashFn t0) [] [] t
+  rw [hd] at hm
+  exact nodeMatches_entries_captures (hashFn t0) (eq_not_mem_hashFn t0) (hashNoNewline_hashFn t0) _
+    (entries [] [] t) (fun e he => (hall e he).1) (fun e he => (hall e he).2) m hm hP
+
+/-- **C02 (node spans are valid line ranges).** With the single assumption on CPython that the line
+numbers of the tree lie within the listing (`1 ≤ lineno ≤ N` for every positioned node), every `node:`
+occurrence of a positioned type is bound to a span `1 ≤ start ≤ end ≤ N`. -/
+theorem C02_node_span_valid (t0 t : Val) (N : Nat) (hwf : treeOk2 t = true) (hnames : namesOkTree t = true)
+    (hmono : lastDescMono [] [] t = true) (hlines : ∀ x ∈ positionedNodes t, 1 ≤ x.2 ∧ x.2 ≤ N) :
+    ∀ m ∈ nodeMatches (dumpP (hashFn t0) [] [] t), (posTypes t).contains m.1 = true →
+      ∀ b, nodeBinding? m = some b → 1 ≤ b.2.start ∧ b.2.start ≤ b.2.stop ∧ b.2.stop ≤ N := by
+  intro m hm hP b hb
+  obtain ⟨hg, hle⟩ := C02_node_span t0 t hwf hnames hmono m hm hP
+  have hcap := C02_node_captures t0 t hwf m hm hP
+  have bound : ∀ n a, posText n a ∈ m.2 → 1 ≤ n ∧ n ≤ N := by
+    intro n a hp
+    obtain ⟨ty, n', a', hmem, he⟩ := hcap _ hp
+    have : n = n' := by
+      have := congrArg parsePos? he
+      simp [parsePos_posText] at this; exact this.1
+    rw [this]; exact hlines (ty, n') hmem
+  obtain ⟨n, a, h | ⟨n', a', h, _⟩⟩ := hg
+  · obtain ⟨sfx, ps⟩ := m
+    simp only at h; subst h
+    have hb' := hb
+    simp only [nodeBinding?, posToSpan?, List.head?_cons, List.getLast?_singleton, parsePos_posText,
+      Option.map_some, Option.some.injEq] at hb'
+    have hn := bound n a (by simp)
+    rw [← hb']; exact ⟨hn.1, Nat.le_refl _, hn.2⟩
+  · obtain ⟨sfx, ps⟩ := m
+    simp only at h; subst h
+    have hb' := hb
+    simp only [nodeBinding?, posToSpan?, List.head?_cons, List.getLast?_cons_cons, List.getLast?_singleton,
+      parsePos_posText, Option.map_some, Option.some.injEq] at hb'
+    have hn := bound n a (by simp)
+    have hn' := bound n' a' (by simp)
+    have := hle b hb
+    rw [← hb'] at this ⊢
+    exact ⟨hn.1, this, hn'.2⟩
+
+/-- The former, stronger hypothesis (line numbers non-decreasing along the whole pre-order enumeration)
+is also sufficient; it fails on decorated definitions. -/
+theorem C02_node_span_preorder (t0 t : Val) (hwf : treeOk2 t = true) (hmono : PreorderMonotone (entries [] [] t)) :
     ∀ m ∈ nodeMatches (dumpP (hashFn t0) [] [] t), (posTypes t).contains m.1 = true →
       GoodSpan m ∧ ∀ b, nodeBinding? m = some b → b.2.start ≤ b.2.stop := by
   intro m hm hP
@@ -220,15 +299,16 @@ theorem C02_node_span (t0 t : Val) (hwf : treeOk2 t = true) (hmono : PreorderMon
 
 /-- **C02 (node spans, on the real pipeline).** The same for what `flatten_ast` returns, for a tree whose
 on-the-fly form satisfies `wfStages6` and whose tweaked form `stage6` satisfies `treeOk2` and
-`PreorderMonotone`. -/
+`namesOkTree`, `lastDescMono`. -/
 theorem C02_node_span_pipeline (cfg : Cfg) (s : HashState) (t : Val) (ty : List Char) (e : Bool) (r : List Char)
-    (ln : Option Nat) (fs : List (List Char × Val)) (ht : onTheFly cfg t = .node ty e r ln fs)
-    (hwf : wfStages6 (onTheFly cfg t) = true) (hok : treeOk2 (stage6 (onTheFly cfg t)) = true)
-    (hmono : PreorderMonotone (entries [] [] (stage6 (onTheFly cfg t)))) :
-    ∀ m ∈ nodeMatches (flattenAst cfg s t).1, (posTypes (stage6 (onTheFly cfg t))).contains m.1 = true →
+    (ln : Option Nat) (fs : List (List Char × Val)) (ht : prep cfg t = .node ty e r ln fs)
+    (hwf : wfStages6 (prep cfg t) = true) (hok : treeOk2 (stage6 (prep cfg t)) = true)
+    (hnames : namesOkTree (stage6 (prep cfg t)) = true)
+    (hmono : lastDescMono [] [] (stage6 (prep cfg t)) = true) :
+    ∀ m ∈ nodeMatches (flattenAst cfg s t).1, (posTypes (stage6 (prep cfg t))).contains m.1 = true →
       GoodSpan m ∧ ∀ b, nodeBinding? m = some b → b.2.start ≤ b.2.stop := by
   rw [Paroxy.Props.C15.C15_flatten_tweaked cfg s t ty e r ln fs ht hwf]
-  exact C02_node_span (onTheFly cfg t) (stage6 (onTheFly cfg t)) hok hmono
+  exact C02_node_span (prep cfg t) (stage6 (prep cfg t)) hok hnames hmono
 
 /-- Non-vacuity: a two-line module `if x:` / `    pass` (already tweaked). -/
 def sampleIf : Val :=
@@ -238,9 +318,25 @@ def sampleIf : Val :=
         [("test".toList, .node "Name".toList true "Name(id='x')".toList (some 1) [("id".toList, .scalar "x".toList .str)]),
          ("body".toList, .list false [.node "Pass".toList false [] (some 2) []])]])]
 
-example : treeOk2 sampleIf = true ∧ decide (PreorderMonotone (entries [] [] sampleIf)) = true := by decide
+example : treeOk2 sampleIf = true ∧ namesOkTree sampleIf = true ∧ lastDescMono [] [] sampleIf = true ∧
+    decide (PreorderMonotone (entries [] [] sampleIf)) = true := by decide
 example : (nodeMatches (dumpP (hashFn sampleIf) [] [] sampleIf)).map (·.2) =
     [["1:1-".toList, "2:1-1-1-".toList], ["1:1-0-".toList], ["2:1-1-1-".toList]] := by decide
+
+/-- Non-vacuity of the weakening: a decorated definition (`@d` on line 1, `def f():` on line 2, `pass` on
+line 3; already tweaked, body last) satisfies `lastDescMono` but not `PreorderMonotone`. -/
+def sampleDecorated : Val :=
+  .node "Module".toList false [] none
+    [("body".toList, .list false
+      [.node "FunctionDef".toList false [] (some 2)
+        [("name".toList, .scalar "f".toList .str),
+         ("decorator_list".toList, .list false
+            [.node "Name".toList true "Name(id='d')".toList (some 1) [("id".toList, .scalar "d".toList .str)]]),
+         ("body".toList, .list false [.node "Pass".toList false [] (some 3) []])]])]
+
+example : treeOk2 sampleDecorated = true ∧ namesOkTree sampleDecorated = true ∧
+    lastDescMono [] [] sampleDecorated = true ∧ decide (PreorderMonotone (entries [] [] sampleDecorated)) = false := by
+  decide
 
 /-- **C02 (whole span).** When `whole_span` captures `<line>:` (first position, path left out) and the
 position text of a node, `pos_to_span` yields exactly these two line numbers, so that the span is a
